@@ -21,7 +21,13 @@ func Equal(a Value, b Value) bool {
 	if a.Format().IsList() {
 		return reflect.DeepEqual(a.Value(), b.Value())
 	}
-	return a.(Comparable).Compare(b.(Comparable)) == 0
+	ac, aok := a.(Comparable)
+	bc, bok := b.(Comparable)
+	if aok && bok {
+		return ac.Compare(bc) == 0
+	}
+	// values without an order (bits, empty, anydata)
+	return reflect.DeepEqual(a.Value(), b.Value())
 }
 
 func EqualVals(a []Value, b []Value) bool {
